@@ -76,11 +76,13 @@ fcppt::container::tree::object<T> &fcppt::container::tree::object<
     return *this;
   }
 
+  // Assigning to a node does not detach it from its parent. Copy the children
+  // before anything is overwritten, in case _other is an ancestor of this node.
+  child_list new_children(this->copy_children(_other.children_));
+
   this->value_ = _other.value_;
 
-  this->parent_ = nullptr;
-
-  this->children_ = this->copy_children(_other.children_);
+  this->children_ = std::move(new_children);
 
   return *this;
 }
